@@ -144,7 +144,9 @@ def history_case(ctx, case):
     login.append(('success',))
     srv = servers.Server({'version': version, 'login': login,
                           'play': {'bursts': bursts, 'mode': mode,
-                                   'end': end}})
+                                   'end': end,
+                                   'end_msg': case.get('end_msg',
+                                                       '{"text":"bye"}')}})
     plan = case.get('plan', 'whole')
     if isinstance(plan, tuple):
         plan = list(plan)
@@ -348,6 +350,13 @@ COMPONENTS = {'history': history_case, 'real_history': real_history_case}
 
 # --------------------------------------------------------------- strategies
 
+# every shape a chat component / kick reason can take on the wire
+END_MSGS = ['{"text":"bye"}', '{"translate":"disconnect.kicked"}',
+            '"Kicked by an operator"', '[{"text":"a"},"b"]', 'not json',
+            '', '{"text":"é世","extra":[{"text":"x"}]}', 'null', '42',
+            '{}']
+
+
 def item_strategy(version):
     long_ka = servers.keep_alive_is_long(version)
     if long_ka:
@@ -396,6 +405,7 @@ def case_strategy(versions, maxlen):
             'burst': st.integers(1, 60),
             'end': st.sampled_from(['disconnect', 'disconnect',
                                     'disconnect', 'eof']),
+            'end_msg': st.sampled_from(END_MSGS),
             'plan': st.one_of(st.just('whole'), st.just('one'),
                               st.lists(st.integers(1, 300), min_size=1,
                                        max_size=6))})
@@ -417,12 +427,20 @@ def t_versions(ctx, versions):
                          [0, 31, -1, 8][i % 4], [0, 128, 2 ** 31 - 1][i % 3],
                          bool(i % 2)))
             hist.append(('time', i, -i))
+        k = 0
         for comp in (None, 0, 256):
             for delivery in ('all', 'reactive'):
                 case = {'version': v, 'compress': comp, 'history': hist,
                         'delivery': delivery, 'burst': 5,
-                        'end': 'disconnect', 'plan': 'whole'}
+                        'end': 'disconnect', 'plan': 'whole',
+                        'end_msg': END_MSGS[(k + v) % len(END_MSGS)]}
+                k += 1
                 history_case(ctx, case)
+        for m in END_MSGS:
+            history_case(ctx, {'version': v, 'compress': None,
+                               'history': hist[:2], 'delivery': 'all',
+                               'end': 'disconnect', 'plan': 'whole',
+                               'end_msg': m})
         # long history crossing the 50/300 batch limits
         long_hist = [('ka', i) if i % 3 else
                      ('unknown', pool[0], b'x' * (i % 40))
